@@ -27,6 +27,7 @@ func VH_C12_sam_sched() {
 	}
 	base := run(1)
 	threads := 1 + vChoice("threads", 3)
+	vRaceDetect()
 	vSchedExplore(vParam("DEV"))
 	vAssert("C12.sam.output-independent-of-schedule", run(threads) == base)
 }
